@@ -126,6 +126,11 @@ def run(ctx):
             e = sc.ev_parse("b%df%d" % (i, j), bad)
             e["fault"] = kind
             evs.append(e)
+            if rnd.random() < 0.12 and bad.strip() == bad and all(ord(c) < 128 for c in bad):
+                # the same faulty body as a FILE (version 1 or 2 header) through OFXTree.parse
+                e2 = sc.ev_parse("b%df%dt" % (i, j), bad, via=rnd.choice([102, 203, 220]))
+                e2["fault"] = kind + " (file)"
+                evs.append(e2)
             kinds[kind] = kinds.get(kind, 0) + 1
             ctx.nontrivial.add((kind, bad))
     ctx.extra["fault_kinds"] = kinds
